@@ -383,8 +383,9 @@ func classifyLoop(l *loop) loopClass {
 }
 
 // progressCond: the loop continues only while cond == contOnTrue. Accepts
-//   x < B, x <= B, x != B (x strictly increasing, B invariant)  and mirrored forms,
-//   ok from Next(range iterator), len(p) > k / len(p) < k with p shrinking/growing.
+//
+//	x < B, x <= B, x != B (x strictly increasing, B invariant)  and mirrored forms,
+//	ok from Next(range iterator), len(p) > k / len(p) < k with p shrinking/growing.
 func progressCond(l *loop, cond ssa.Value, contOnTrue bool) loopClass {
 	switch c := cond.(type) {
 	case *ssa.UnOp:
@@ -517,14 +518,15 @@ func hasIndexGuard(l *loop) bool {
 
 // classifyDisjunctive handles `for i < len(a) || j < len(b) { ... }` scanner loops (T5).
 // Ranking function: (len(a)-i) + (len(b)-j). Requirements checked:
-//  (1) the loop is left when both disjuncts are false; both bounds invariant;
-//  (2) on every back edge i' >= i and j' >= j (monotone);
-//  (3) progress: for each cursor c with bound B and sequence x: the loop body contains
-//      cursor sub-loops `for c < B && P_k(x[c]) { c++ }` that are executed unconditionally
-//      in sequence, and the disjunction of their guards P_k is a tautology over the
-//      predicate atoms applied to x[c] — so whenever c < B at the top of an iteration at
-//      least one sub-loop advances c before the back edge is reached (or the function
-//      returns).
+//
+//	(1) the loop is left when both disjuncts are false; both bounds invariant;
+//	(2) on every back edge i' >= i and j' >= j (monotone);
+//	(3) progress: for each cursor c with bound B and sequence x: the loop body contains
+//	    cursor sub-loops `for c < B && P_k(x[c]) { c++ }` that are executed unconditionally
+//	    in sequence, and the disjunction of their guards P_k is a tautology over the
+//	    predicate atoms applied to x[c] — so whenever c < B at the top of an iteration at
+//	    least one sub-loop advances c before the back edge is reached (or the function
+//	    returns).
 func classifyDisjunctive(l *loop) loopClass {
 	h := l.header
 	iff, ok := h.Instrs[len(h.Instrs)-1].(*ssa.If)
